@@ -191,6 +191,18 @@ def _chunk(items) -> dict:
                 add("same_meaning_different_predicate", f"{hint_str(case['prev'])} vs {hint_str(case['h'])}: {pa} vs {pb}")
         elif na == nb:
             add("different_meaning_same_normal_form", f"{hint_str(case['prev'])} and {hint_str(case['h'])} both normalise to {na!r}")
+        if case.get("allkeeps") and case["root"] != case["prev"]:
+            try:
+                # each side normalised from an empty lru_cache: equal hints (typing's == ignores union order) must not borrow
+                # each other's cached normal form
+                _cached_normalize.cache_clear()
+                nr = normalize_type(hint(case["root"]))
+                _cached_normalize.cache_clear()
+                nb = normalize_type(b)
+            except NotExpressible:
+                continue
+            if nr != nb or hash(nr) != hash(nb):
+                add("same_meaning_different_normal_form", f"after several preserving rewrites: {hint_str(case['root'])} -> {nr!r}; {hint_str(case['h'])} -> {nb!r}")
     best: dict = {}
     for b_ in out["bad"]:
         k = stable_hash(b_["sig"])
